@@ -107,6 +107,8 @@ def runHistory (be : Backend) (b : Build) (script : String) (convGroups : List (
           | .msg m => "m" ++ showMsg (fun rc => "#" ++ showInt rc) m
           | .verdict ret ec m r => "e" ++ showInt ret ++ " " ++ toString ec ++ " " ++ showMsg (fun rc => "#" ++ showInt rc) m ++ " " ++ showResult b r
         outs := outs.push txt
+  if be == .idnkit then
+    outs := outs.push ("R" ++ toString st.resconfCreated ++ "," ++ toString st.resconfDestroyed ++ "," ++ toString st.resconfLive ++ ",0")
   return ";".intercalate outs.toList
 
 def splitGroups (toks : List String) : List (List String) :=
